@@ -146,10 +146,12 @@ type Frame struct {
 	// where to put the result in the caller
 	retInstr ssa.Value
 	// entry snapshot for old()
-	entryHeap map[int]Value
-	params    []Value
-	onReturn  func(st *State, results []Value) // used for top-level
-	isDefer   bool
+	entryHeap  map[int]Value
+	params     []Value
+	onReturn   func(st *State, results []Value) // used for top-level
+	isDefer    bool
+	headerDone bool
+	wrapAwait  bool
 }
 
 type deferred struct {
@@ -482,7 +484,7 @@ func (x *Exec) symbolic(st *State, t types.Type, name string) Value {
 	case *types.Slice:
 		nilT := x.sym.Named(name+".isnil", SBool)
 		ln := x.sym.Named(name+".len", SInt)
-		st.assume(Ge(ln, IntLit(0)))
+		st.assume(And(Ge(ln, IntLit(0)), Le(ln, IntLit(1<<48)))) // no slice has more than 2^48 elements
 		st.assume(Implies(nilT, Eq(ln, IntLit(0))))
 		arr := x.alloc(st, &VAbsArr{Len: ln, Elem: u.Elem(), Name: name})
 		return VSlice{Nil: nilT, Arr: arr, Len: ln, Typ: t}
